@@ -9,7 +9,7 @@ ASSUMPTIONS = [
     "values are opaque tokens; task bodies have no side effects besides the harness record",
     "exhaustive only within the alphabet and bounds listed in coverage.bounds",
 ]
-MENU = ["leaf:sh", "wrap:try", "ins:raise", "item:err", "item:unset", "flush:raise", "wrap:A", "wrap:N", "item:c", "ins:mkitem", "leaf:re", "shape:T", "shape:D", "shape:nest"]
+MENU = ["leaf:cw", "leaf:sh", "wrap:try", "ins:raise", "item:err", "item:unset", "flush:raise", "wrap:A", "wrap:N", "item:c", "ins:mkitem", "leaf:re", "shape:T", "shape:D", "shape:nest"]
 CATS = ["r2-batch", "r2-flush-count", "r2-menu", "r2-diverge", "r2-outcome", "crit-count", "hang", "worker-died"]
 LADDER = {"quick": [(5, 0, ["call"]), (4, 1, ["call"]), (3, 2, ["call"])], "thorough": [(6, 0, ["call"]), (5, 1, ["call"]), (4, 2, ["call"]), (2, 3, ["call"])]}
 SPEC = {"r1": True, "r2": True}
